@@ -34,6 +34,8 @@ func (r Result) OK() bool {
 type Job struct {
 	Ex  *symex.Exec
 	Obl *symex.Obligation
+	// Expected failure (an obligation covered by a recorded finding): short time-out, no retry.
+	ExpectFail bool
 }
 
 func Discharge(jobs []Job, timeout time.Duration, seed int, workers int) []Result {
@@ -52,11 +54,16 @@ func Discharge(jobs []Job, timeout time.Duration, seed int, workers int) []Resul
 				}
 				q := j.Ex.Query(j.Obl)
 				to := timeout
-				if j.Obl.Note == "must-fail" {
+				if j.Obl.Note == "must-fail" || j.ExpectFail {
 					to = 3 * time.Second
 				}
-				r := smt.Solve(q, to, seed)
-				if r.Status != smt.Unsat && r.Status != smt.Sat && j.Obl.Note != "must-fail" {
+				var r smt.Result
+				if j.Obl.Note == "must-fail" {
+					r = smt.SolveQuick(q, 1500*time.Millisecond, seed)
+				} else {
+					r = smt.Solve(q, to, seed)
+				}
+				if r.Status != smt.Unsat && r.Status != smt.Sat && j.Obl.Note != "must-fail" && !j.ExpectFail {
 					// one retry with another seed before giving up
 					r2 := smt.Solve(q, to, seed+7919)
 					if r2.Status == smt.Unsat || r2.Status == smt.Sat {
